@@ -520,3 +520,17 @@ unsafe impl RegionContains<ShardIndex> for ShardIndex {
         }
     }
 }
+
+/// Verification hook (compiled only with `--cfg nomt_verif`): the private shard arithmetic.
+#[cfg(nomt_verif)]
+pub(crate) mod verif {
+    use super::PageRegion;
+
+    pub fn shard_regions(num_shards: usize) -> Vec<(PageRegion, usize)> {
+        super::shard_regions(num_shards)
+    }
+
+    pub fn shard_index_for(num_shards: usize, first_ancestor: usize) -> usize {
+        super::shard_index_for(num_shards, first_ancestor)
+    }
+}
